@@ -30,6 +30,7 @@ PROPS = {
     ),
     "C10": dict(
         harness="sim/c10", cmd="zzverif_c10", race=True, minimise_mode=True, crash_is_violation=True,
+        selftest_worker=("2", "3"),  # a worker that also draws workloads over types compiled from generated bundles
         rewrite=["-m", M_PKGS, "-y", Y_PKGS,
                  "-every", "lib/j5schema/schema_cache.go,lib/j5schema/schema_set.go,lib/j5reflect/reflect.go,internal/codec/codec.go",
                  "-fieldassign", "lib/j5schema",
@@ -239,6 +240,7 @@ def finding_key(v):
 
 def do_selftest(binary, prop, seed, outdir, runs, extra_args):
     """Same seed, several fresh processes at different GOMAXPROCS: identical logs required."""
+    cfg = PROPS[prop]
     logs = []
     procs = []
     for i in range(runs):
@@ -246,7 +248,7 @@ def do_selftest(binary, prop, seed, outdir, runs, extra_args):
         env = goenv({"GOMAXPROCS": str([1, 4, 16][i % 3])})
         if PROPS[prop]["race"]:
             env["GORACE"] = "log_path=%s halt_on_error=0 exitcode=0 history_size=4" % os.path.join(outdir, "detrace%d" % i)
-        cmd = [binary, "-mode", "worker", "-seed", str(seed), "-worker", "0", "-workers", "1", "-budget", "600",
+        cmd = [binary, "-mode", "worker", "-seed", str(seed), "-worker", cfg.get("selftest_worker", ("0", "1"))[0], "-workers", cfg.get("selftest_worker", ("0", "1"))[1], "-budget", "600",
                "-detlog", "-max-programs", os.environ.get("VERIF_SELFTEST_PROGRAMS", "6"), "-out", out] + extra_args
         procs.append((subprocess.Popen(cmd, env=env, stdout=subprocess.DEVNULL, stderr=subprocess.DEVNULL, cwd=outdir), out))
     for p, out in procs:
